@@ -27,6 +27,7 @@ func init() {
 		},
 		Run: run,
 		Assumptions: []string{
+			"'when the request ends' is also checked at the moment the request leaves the middleware chain (deferred function of the harness middleware that sits outside the scope middleware): the scope must already refuse Get and every scoped instance must have a Close event, on every exit path including client aborts (godi's Close waits for a Close in flight, so the watcher winning the race is no excuse); exception: fiber with a panic propagating through the scope middleware, where fasthttp's release of the request context closes the scope",
 			"every case also constructs a second ScopeMiddleware (with its own, differently numbered configured middlewares) and a second Handle with opposite options on another route group of the same engine, after the instance under test: configuration is per instance, so their middlewares must never run for requests through the instance under test",
 			"go-chi is not in the module cache: godi's chi middleware is driven as plain func(http.Handler) http.Handler over net/http's ServeMux",
 			"echo/v4/middleware is not in the module cache: a 6-line recover middleware of the harness plays its role",
